@@ -106,32 +106,11 @@ example : ∃ d, formatDev (2^30) 16 4 512 prmEx = .ok d ∧ Acct d := by
   exact ⟨d, h, format_acct (k := 9) h (by decide) (by decide) (by decide) rfl (by decide) (by decide)
     (by decide)⟩
 
-/-- `size = 0` (hypothesis `0 < size` of `format_acct`): the model's formatter
-    computes an empty refcount table (`rtClusters = 0`), puts the refblock at the
-    reftable offset and gives it refcount 1, but no reftable entry can reference
-    it: cluster 1 is leaked. -/
-theorem format_size_zero_leaks :
-    ∃ d, formatDev 0 16 4 512 prmEx = .ok d ∧ d.rc.get 1 = 1 ∧ d.refs 1 = 0 ∧ ¬ Acct d := by
-  have : ∃ d, formatDev 0 16 4 512 prmEx = .ok d := ⟨_, rfl⟩
-  obtain ⟨d, h⟩ := this
-  obtain ⟨rc, info, _, hinfo, e1, _, e3, e4, e5, e6, e7, e8, e9⟩ := formatDev_ok h
-  obtain ⟨_, _, _, _, _, _, _, _, _, _, _, hi⟩ := Info.new_ok hinfo
-  have hmp : metaParams 0 16 4 512 = (⟨65536, 0, 65536, 131072, 0, 0⟩ : MetaParams) := by decide
-  rw [hmp] at e3 e4 e5 e6 e9
-  dsimp only at e3 e4 e5 e6 e9
-  have hcs : d.cs = 65536 := by unfold Dev.cs Info.clusterSize; rw [e1, hi]; rfl
-  have hrc : d.rc.get 1 = 1 := by
-    rw [formatDev_rc_get h 1, hmp]; rfl
-  have hrefs : d.refs 1 = 0 := by
-    unfold Dev.refs Dev.refsHeader Dev.refsL1Table Dev.refsRtTable Dev.refsRefblocks Dev.refsL2Tables
-      Dev.refsData Dev.l1Clusters
-    rw [hcs, e3, e4, e5, e6, e9]
-    rfl
-  refine ⟨d, h, hrc, hrefs, ?_⟩
-  intro hA
-  have := hA 1
-  rw [hrc, hrefs] at this
-  cases this
+/-- `size = 0` (hypothesis `0 < size` of `format_acct`): such an image has no L1
+    table and an empty refcount table; `Qcow2Dev::new` refuses it (before the
+    repair recorded in known_findings.jsonl it asserted in the table buffer
+    allocator), so there is no device state to account for. -/
+theorem format_size_zero_refused : formatDev 0 16 4 512 prmEx = .err .invalid := by rfl
 
 /-- beyond the 32 MiB L1 cap (hypothesis `hcap` of `format_acct`): for a 4 EiB
     image with 2 MiB clusters the model's formatter sizes the L1 table for the
